@@ -271,7 +271,7 @@ def drv_resubmit_incomplete(seed, gen_kw, variant):
 
 def drv_hooks(seed, combo, local, fail_teardown):
     rng = random.Random(seed)
-    scn = scenario.gen(rng, n_min=2, n_max=5, groups_max=1, allow_time=False)
+    scn = scenario.gen(rng, n_min=2, n_max=5, groups_max=(1 if local or seed % 3 else 3), allow_time=False)
     scn["hooks"] = {k: bool(combo >> i & 1) for i, k in enumerate(("setup", "teardown", "nsetup", "nteardown"))}
     # fail_teardown: False / True (the teardown command exits 1) / "node" (the node teardown command exits 1)
     scn["hook_rc"] = {"nteardown": 1} if fail_teardown == "node" else ({"teardown": 1} if fail_teardown else {})
@@ -286,6 +286,12 @@ def drv_cancel(scn, seed, t, after):
     plan = [{"kind": "usertry", "t": t, "argv": ["cancel-jobs", "{out}"], "host": "login"}]
     tr = run.run_fault(scn, seed, plan, after=after)
     tr["driver"] = ["cancel", scn, seed, t, after]
+    return tr
+
+
+def drv_cancel_quiet(scn, seed, k, after, complete_ids=False):
+    tr = run.run_cancel_quiet(scn, seed, k, after, complete_ids=complete_ids)
+    tr["driver"] = ["cancel_quiet", scn, seed, k, after, complete_ids]
     return tr
 
 
@@ -319,7 +325,7 @@ def drv_random_nodefaults(seed, gen_kw):
     return tr
 
 
-DRIVERS = {"macro": drv_macro, "pipeline": drv_pipeline, "resubmit_scn": drv_resubmit_scn, "resubmit": drv_resubmit, "resubmit_incomplete": drv_resubmit_incomplete, "hooks": drv_hooks, "cancel": drv_cancel, "random_cancel": drv_random_cancel, "fault": drv_fault, "random_nodefaults": drv_random_nodefaults, "cluster": drv_cluster, "results": drv_results, "random_hpc": drv_random_hpc, "scn": drv_scn, "model_replay": drv_model_replay,
+DRIVERS = {"cancel_quiet": drv_cancel_quiet, "macro": drv_macro, "pipeline": drv_pipeline, "resubmit_scn": drv_resubmit_scn, "resubmit": drv_resubmit, "resubmit_incomplete": drv_resubmit_incomplete, "hooks": drv_hooks, "cancel": drv_cancel, "random_cancel": drv_random_cancel, "fault": drv_fault, "random_nodefaults": drv_random_nodefaults, "cluster": drv_cluster, "results": drv_results, "random_hpc": drv_random_hpc, "scn": drv_scn, "model_replay": drv_model_replay,
            "batching_input": drv_batching_input, "dry_pair": drv_dry_pair, "first_round": drv_first_round}
 
 
@@ -1196,6 +1202,16 @@ def check_C14(ctx):
         for t in range(1, len(btr["moves"]) + 1, 1 if not q else 2):     # cancel issued at every scheduling step
             for a in (afters if not q else afters[:2]):
                 tasks.append(("cancel", (b, ctx.seed + i, t, a)))
+    # ... and at the quiet moments: every batch has ended, jobs are still unsubmitted (max-nodes 1: a node's own round can never
+    # submit), the user has run the recovery k times -- no HPC job id is recorded then
+    quiet = [families.scn("ABC", groups=[families.G(size=1, procs=1)], maxnodes=1),
+             families.scn("ABCD", blk={"D": ["A"]}, groups=[families.G(size=2, tryadd=False, procs=2)], maxnodes=1)]
+    for i, b in enumerate(quiet):
+        for k in range(0, 3):
+            for a in afters:
+                for sd in range(1 if q else 4):
+                    tasks.append(("cancel_quiet", (b, ctx.seed + 50 + i + 7 * sd, k, a)))
+                    tasks.append(("cancel_quiet", (b, ctx.seed + 50 + i + 7 * sd, k, a, True)))
     ctx.extra["cancel_moments_enumerated"] = len(tasks)
     tasks += [("random_cancel", (s, dict(n_min=3, n_max=7, groups_max=1))) for s in seeds(ctx, 150 if q else 2500, 51)]
     ctx.judge(bl + run_tasks(tasks), "cancel-jobs issued at every scheduling step of base schedules and at random moments of random "
